@@ -88,13 +88,15 @@ struct titem {
   i64 v; uint32_t tag;
   static const uint32_t ALIVE = 0xA11CE5u, MOVED = 0x30FEDu, DEAD = 0xDEADu;
   void reg() { ItemState& s = item_state(); s.constructed++; if (!s.live.insert(this).second) s.errors.push_back("item constructed over a live item"); }
-  void chk(const titem& o, const char* what) const { if (o.tag == DEAD || item_state().live.count(&o) == 0) item_state().errors.push_back(std::string(what) + " from an item that is not alive"); else if (o.tag == MOVED) item_state().errors.push_back(std::string(what) + " from a moved-from item"); }
+  // copying or moving a moved-from item is legal (swap does it): the unspecified state travels with it; only reading its value is an error
+  void chk(const titem& o, const char* what) const { if (o.tag == DEAD || item_state().live.count(&o) == 0) item_state().errors.push_back(std::string(what) + " from an item that is not alive"); }
+  static uint32_t carry(const titem& o) { return o.tag == MOVED ? MOVED : ALIVE; }
   titem(): v(0), tag(ALIVE) { reg(); }
   titem(i64 v_): v(v_), tag(ALIVE) { reg(); }
-  titem(const titem& o): v(o.v), tag(ALIVE) { chk(o, "copy-construct"); reg(); }
-  titem(titem&& o) noexcept: v(o.v), tag(ALIVE) { chk(o, "move-construct"); reg(); o.tag = MOVED; }
-  titem& operator=(const titem& o) { chk(o, "copy-assign"); must_live("assigned to"); v = o.v; tag = ALIVE; return *this; }
-  titem& operator=(titem&& o) noexcept { if (this != &o) { chk(o, "move-assign"); must_live("assigned to"); v = o.v; tag = ALIVE; o.tag = MOVED; } return *this; }
+  titem(const titem& o): v(o.v), tag(carry(o)) { chk(o, "copy-construct"); reg(); }
+  titem(titem&& o) noexcept: v(o.v), tag(carry(o)) { chk(o, "move-construct"); reg(); o.tag = MOVED; }
+  titem& operator=(const titem& o) { chk(o, "copy-assign"); must_live("assigned to"); v = o.v; tag = carry(o); return *this; }
+  titem& operator=(titem&& o) noexcept { if (this != &o) { chk(o, "move-assign"); must_live("assigned to"); v = o.v; tag = carry(o); o.tag = MOVED; } return *this; }
   ~titem() {
     ItemState& s = item_state(); s.destroyed++;
     if (s.live.erase(this) == 0) s.errors.push_back(tag == DEAD ? "item destroyed twice" : "destruction of a never-constructed item");
